@@ -96,6 +96,11 @@ def gen_plan(seed, tier="quick"):
     if nunits >= 2 and r.random() < 0.5 and units[0]:
         units[1] = sorted(set(units[1]) | set(r.sample(units[0], min(len(units[0]), 3))))
     labels = r.sample(range(-3, 50), nunits)
+    lab_range = r.choice(["small", "small", "medium", "large"])      # cluster ids are arbitrary integers: curated ids can be large
+    if lab_range == "medium":
+        labels = r.sample(range(100, 30000), nunits)
+    elif lab_range == "large":
+        labels = r.sample(range(10**6, 2 * 10**9), nunits)
     spikes = []
     for u, ts in enumerate(units):
         for t in ts:
@@ -131,7 +136,8 @@ def gen_plan(seed, tier="quick"):
         # source is not demanded; independence from the worker count and the schedule still is (same chunk size)
         "preprocess": "default" if r.random() < 0.2 else "none",
         "spike_dtype": r.choice(["int64", "int64", "uint64", "int32", "uint32"]),     # spike sorters save unsigned times
-        "cluster_dtype": r.choice(["int64", "int64", "int32", "int32", "int16"]),     # ... and narrow integer cluster labels
+        # ... and integer cluster labels of the narrowest type that holds them
+        "cluster_dtype": ("int64" if False else r.choice({"small": ["int64", "int32", "int16"], "medium": ["int64", "int32", "int16"], "large": ["int64", "int32"]}[lab_range])),
         "n_jobs_minus_one": r.random() < 0.06,                                        # n_jobs=-1: joblib's "all CPUs"
         "prelude_same_outdir": r.random() < 0.4,
         "explicit_h": r.random() < 0.3,
@@ -625,6 +631,14 @@ def _check_files(plan, tag, out, V, neigh, sp, valid, ns, nap, od, res, chunk, n
         w_all = wl.load_waveforms(return_info=False)
         if not np.array_equal(w_all, traces, equal_nan=True):
             raise Violation("C13.W5", f"{sigbase}:loader-all", f"load_waveforms() differs from the saved traces {ctx}")
+        # what the loader hands out belongs to the caller: working on it in place (baseline subtraction ...) must not reach the saved files
+        if getattr(w_all, "flags", None) is not None and w_all.flags.writeable and w_all.size:
+            w_all[...] = 0
+            del w_all
+            again = wfx.WaveformsLoader(od).load_waveforms(return_info=False)
+            if not np.array_equal(again, traces, equal_nan=True) or not np.array_equal(np.load(od / "waveforms.traces.npy"), traces, equal_nan=True):
+                raise Violation("C13.W5", f"{sigbase}:loader-aliases-file", f"modifying the array returned by load_waveforms() changed the saved traces {ctx}")
+            del again
         if len(present):
             lr = rng_of(plan["seed"] ^ 0xABC)
             labs = sorted(lr.sample(list(present.tolist()), lr.randrange(1, len(present) + 1)))
